@@ -55,7 +55,7 @@ def gen_case(D):
         'older_than': D.choice([None, 1, 5, 30, 10000, 5, 30]),
         'max_finished': D.choice([0, 0, 1, 2, 3, 5, 100]),
         'batch_size': D.choice([0, 1, 2, 3, 50]),
-        'ignored': sorted(D.subset(TERMINAL, 0, 2)) if D.bool(0.3) else [],
+        'ignored': sorted(D.subset(TERMINAL, 0, 3)) if D.bool(0.35) else [],
     }
     return {'trees': trees, 'settings': settings}
 
